@@ -54,6 +54,9 @@ type funcInfo struct {
 	// MultiAssigns: the body performs a multi-assignment itself (a caller's multi-assignment that calls it has two such
 	// statements in flight at once: compiler-owned temporaries must not be shared between them)
 	MultiAssigns bool
+	// WantCall: the function has a shape whose effect only shows when its results are used (several returned values that are
+	// direct call results): the next statements prefer to call it and keep the results
+	WantCall bool
 }
 
 type G struct {
@@ -771,6 +774,11 @@ func (g *G) addCounter(name string, ty ts.Type, minLen int) *varInfo {
 
 func (g *G) declStmt() []ts.Stmt {
 	depth := g.intn("decl-depth", 0, g.cfg.ExprDepth)
+	if g.pure == 0 && g.chance("wanted-call", 60) {
+		if st := g.wantedCall(depth); st != nil {
+			return st
+		}
+	}
 	// multi-name forms
 	if g.chance("multi-decl", 18) {
 		return g.multiDecl(depth)
@@ -805,6 +813,39 @@ func (g *G) multiFuncs() []*funcInfo {
 		}
 	}
 	return out
+}
+
+// wantedCall returns a definition x, y := f(...) for a function that asked to be called (see funcInfo.WantCall).
+func (g *G) wantedCall(depth int) []ts.Stmt {
+	for _, f := range g.multiFuncs() {
+		if !f.WantCall {
+			continue
+		}
+		f.WantCall = false
+		names := []string{}
+		for range f.Rets {
+			names = append(names, g.freshNameAvoid(names))
+		}
+		d := ts.VarDecl{Names: names, Ty: f.Rets[0], Tys: f.Rets, Vals: []ts.Expr{g.callExpr(f, depth)}, Form: ts.DeclShort}
+		for i, n := range names {
+			g.defineVar(n, f.Rets[i], 0)
+		}
+		g.tag("multi-decl-from-call")
+		g.tag("wanted-call")
+		out := []ts.Stmt{d}
+		// the results are printed right away (scalars) so that they are observed wherever the definition stands
+		p := ts.Print{}
+		for i, n := range names {
+			if !f.Rets[i].IsSlice() {
+				p.Args = append(p.Args, ts.VarRef{Name: n, Ty: f.Rets[i]})
+			}
+		}
+		if len(p.Args) > 0 {
+			out = append(out, p)
+		}
+		return out
+	}
+	return nil
 }
 
 func (g *G) multiDecl(depth int) []ts.Stmt {
@@ -1829,6 +1870,7 @@ func (g *G) funcDef() ts.Stmt {
 				if cs := g.callsReturning(rt); len(cs) > 0 {
 					r.Vals = append(r.Vals, g.callExpr(cs[g.intn("fn", 0, len(cs)-1)], 1))
 					g.tag("return-of-direct-calls")
+					fi.WantCall = true
 					continue
 				}
 				// no function of that type: a later value still CONTAINS a call where one of a convertible type exists
